@@ -3,7 +3,7 @@
    EVERY x in dom, the checked-access run f x is neither Crash (an index/slice
    out of range or an explicit panic) nor Hang (fuel = one unit per loop
    iteration, len+1 given). *)
-From V Require Import Common.Base C16.Checked C16.Spec C16.Wtf8 C16.Vlq16 C16.CssNum C16.Pieces C16.Packet C16.CssIdent C16.JsxEntities C16.CssLex C16.Globstar
+From V Require Import Common.Base C16.Checked C16.Spec C16.Wtf8 C16.Vlq16 C16.CssNum C16.Pieces C16.Packet C16.CssIdent C16.JsxEntities C16.CssLex C16.Globstar C16.JsLex
   C16.Proofs C16.Vlq16Proofs C16.GlobstarProofs C16.PanicSites C16.DecodeLoops.
 From V Require Import gen.PanicSitesGen gen.DecodeLoopsGen.
 From Coq Require Import String.
@@ -118,6 +118,19 @@ Print Assumptions decoder_total_css_consumeURL.
 Theorem decoder_total_css_consumeName : total_on all_bytes run_name.
 Proof. exact total_css_consumeName. Qed.
 Print Assumptions decoder_total_css_consumeName.
+
+(* the JS lexer's string / template literal scan inside Lexer.Next (quotes, backslash line
+   continuations incl. CRLF, "${") TOGETHER WITH the slice Contents[start+1 : end-suffixLen] that takes
+   the literal's text: every byte string; the result is a token or the typed LexerPanic (syntax error) *)
+Theorem decoder_total_js_string_template : total_on all_bytes run_jsstring.
+Proof. exact total_js_string_template. Qed.
+Print Assumptions decoder_total_js_string_template.
+
+(* Lexer.ScanRegExp (class brackets, escapes, flags incl. the duplicate-flag scan): every byte string and
+   every identifier-continue classification that rejects the eof sentinel *)
+Theorem decoder_total_js_ScanRegExp : forall idc, idc eof = false -> total_on all_bytes (run_regexp idc).
+Proof. exact total_js_ScanRegExp. Qed.
+Print Assumptions decoder_total_js_ScanRegExp.
 
 (* js_lexer.decodeJSXEntities (JSX text and attribute strings) with the guard "length > 0" in front of
    entity[0]: every byte string, every entity table *)
